@@ -337,6 +337,13 @@ def draw_nonempty(v: V, p: Path, e: Event) -> Optional[bool]:
             if isinstance(t, Term) and t.op == "is" and not b and any(isinstance(a, V) and a.key() == vk0 for a in t.args) \
                     and any(isinstance(a, Const) and a.value is None for a in t.args):
                 return True
+    if isinstance(v, Sym) and v.origin and v.origin[0] == "elem" and len(v.origin) > 1 and isinstance(v.origin[1], V):
+        # a member of map(chr, ...) - possibly filtered - is a one-character string
+        src = v.origin[1]
+        while isinstance(src, Term) and src.op in ("gencomp", "listcomp", "src") and src.args and isinstance(src.args[-1 if src.op == "src" else 1], V):
+            src = src.args[0] if src.op == "src" else src.args[1]
+        if isinstance(src, Term) and src.op == "map" and src.args and src.args[0].key() == "<builtins.chr>":
+            return True
     if _known_nonempty(v, p, e):
         return True
     vk = v.key()
